@@ -221,6 +221,12 @@ pub struct Sim<S: Subject> {
     pub newest_first: bool,
     /// restrict edits to replicas whose knowledge is causally closed
     pub edit_closed_only: bool,
+    /// round-trip every op through serde_json before it is delivered (C19)
+    pub serde_ops: bool,
+    /// first op (de)serialisation problem, if any
+    pub serde_error: Option<String>,
+    /// treat SaveRestore steps as no-ops (the reference twin of C19)
+    pub skip_restore: bool,
 }
 
 impl<S: Subject> Sim<S> {
@@ -245,6 +251,9 @@ impl<S: Subject> Sim<S> {
             log: Vec::new(),
             newest_first: false,
             edit_closed_only: false,
+            serde_ops: false,
+            serde_error: None,
+            skip_restore: false,
         }
     }
 
@@ -318,7 +327,30 @@ impl<S: Subject> Sim<S> {
     }
 
     pub fn deliver(&mut self, r: usize, op: usize) {
-        let o = self.ops[op].clone();
+        let mut o = self.ops[op].clone();
+        if self.serde_ops {
+            match serde_json::to_string(&o) {
+                Err(e) => {
+                    if self.serde_error.is_none() {
+                        self.serde_error = Some(format!("op#{op} cannot be serialised: {e}"));
+                    }
+                }
+                Ok(text) => match serde_json::from_str::<S::Op>(&text) {
+                    Err(e) => {
+                        if self.serde_error.is_none() {
+                            self.serde_error = Some(format!("op#{op} cannot be deserialised from {text}: {e}"));
+                        }
+                    }
+                    Ok(back) => {
+                        let again = serde_json::to_string(&back).unwrap_or_default();
+                        if again != text && self.serde_error.is_none() {
+                            self.serde_error = Some(format!("op#{op} changes when round-tripped: {text} -> {again}"));
+                        }
+                        o = back;
+                    }
+                },
+            }
+        }
         S::apply(&mut self.reps[r].st, o);
         if !has(self.reps[r].know, op) {
             self.reps[r].order.push(op as i32);
@@ -418,6 +450,10 @@ impl<S: Subject> Sim<S> {
                     self.note(|| format!("r{dst} <- merge(snapshot s{k} of r{})", snap.from));
                     Event::Merged { dst, src_know: snap.know, src_st: snap.st, before, before_know, stale: true }
                 }
+            }
+            Step::SaveRestore { r } if self.skip_restore => {
+                let r = idx(r, n);
+                Event::Snapshotted { r }
             }
             Step::SaveRestore { r } => {
                 let r = idx(r, n);
